@@ -51,7 +51,8 @@ Proof.
   rewrite Ep1. cbn [app]. change (1 + 1) with 2.
   destruct (parse_t2 its1 ts (p_tree s1) g1 pl1 (table_image (enc_items its1)) Hok1 Hok Hfr1 Hfr2 HF1 DF1 Hl1 Hfree1) as (s2 & gF & plF & Ep2 & HF & DF & Etb).
   rewrite Ep2. cbn [app]. change (0 =? 0) with true. cbv iota.
-  rewrite (view_t2_eq (p_tree s2) gF plF HF _ its1 ts DF Hok1 Hok).
+  rewrite (view_t2_eq (p_tree s2) gF plF HF [table_image (enc_items its1); table_image (enc_titems ts)] its1 ts (hdr_of (enc_items its1)) (hdr_of (enc_titems ts)) DF Hok1 Hok
+             ltac:(rewrite !table_image_hdr; reflexivity) eq_refl eq_refl).
   unfold ns. cbn [flat_map]. rewrite app_nil_r.
   rewrite (entries_items _ its1 Hs1).
   rewrite (entries_titems _ ts (fun d Hd' => resolve_env_default _ d Hd') Hs Hd).
